@@ -57,8 +57,10 @@ def cases(draw, max_nodes):
         # producer -> failing sole consumer, plus a few calls ordered after the producer that are still to
         # start when the consumer has failed
         pnode = g.add_call(stored=False)
-        f = g.add({"k": "call", "args": [{"n": pnode}], "kwargs": [], "deps": [], "scope": g.scope(), "stored": False,
-                   "beh": {"t": "ok"}, "side": None}, hashable=True)
+        how = draw(st.sampled_from(["positional", "keyword", "both"]))  # how the consumer takes the value
+        f = g.add({"k": "call", "args": [{"n": pnode}] if how != "keyword" else [],
+                   "kwargs": [["x", {"n": pnode}]] if how != "positional" else [], "deps": [], "scope": g.scope(),
+                   "stored": False, "beh": {"t": "ok"}, "side": None}, hashable=True)
         g.refs = [r for r in g.refs if r != {"n": pnode}]
         g.hashable_refs = [r for r in g.hashable_refs if r != {"n": pnode}]
         last = pnode
